@@ -11,6 +11,7 @@ def build(u):
     u.ghost_callees["m:push"] = ("Ghost(part_id(payment))", r"^tasks$")
     u.raw("use vstd::prelude::*;\nuse ::std::sync::Arc;\nverus! {\nglobal size_of usize == 8;\n")
     u.env("prelude.rs")
+    u.env("std_extra.rs")
     u.canary_decls()
     u.env("anyhow.rs")
     u.env("ln_types.rs")
